@@ -207,7 +207,11 @@ class HttpParser:
         return self.version == HTTP_1_1 and \
             (
                 not self.has_header(b'Connection') or
-                self.header(b'Connection').lower() == b'keep-alive'
+                # Connection carries a list of tokens e.g. "keep-alive, TE"
+                b'keep-alive' in [
+                    token.strip()
+                    for token in self.header(b'Connection').lower().split(b',')
+                ]
             )
 
     @property
